@@ -125,3 +125,41 @@ package ipfshttp
 //@   opts own
 //@   ensures [success-means-shut-down] err == nil ==> ipfs.shutdown
 //@   modifies *
+
+// ---- C15: the loaded form: every setting the saved form carries is read back into the field of the same name, and
+// what is accepted has passed Validate ("any configuration the loader accepts passes validation") ----
+//@ extern multiaddr.NewMultiaddr(s)
+//@   ensures res == libfn("multiaddr.NewMultiaddr", 0, s)
+//@   ensures err == nil ==> !isnil(res)
+//@ spec func validIpfsCfg(c *Config) bool = !isnil(c.NodeAddr) && c.ConnectSwarmsDelay >= 0 && c.IPFSRequestTimeout >= 0 && c.PinTimeout >= 0 && c.UnpinTimeout >= 0 && c.RepoGCTimeout >= 0
+//@ func (cfg *Config) Validate
+//@   property C15
+//@   requires cfg != nil
+//@   ensures [accepts-exactly-the-valid] err == nil <==> validIpfsCfg(cfg)
+//@   modifies nothing
+//@ func (cfg *Config) applyJSONConfig
+//@   property C15
+//@   requires cfg != nil && jcfg != nil
+//@   ensures [accepted-is-valid] err == nil ==> validIpfsCfg(cfg)
+//@   ensures [node-multiaddress] err == nil ==> cfg.NodeAddr == libfn("multiaddr.NewMultiaddr", 0, jcfg.NodeMultiaddress)
+//@   ensures [unpin-disable] err == nil ==> cfg.UnpinDisable == jcfg.UnpinDisable
+//@   ensures [connect-swarms-delay] err == nil ==> cfg.ConnectSwarmsDelay == ite(jcfg.ConnectSwarmsDelay != "", parseDur(jcfg.ConnectSwarmsDelay), old(cfg.ConnectSwarmsDelay))
+//@   ensures [ipfs-request-timeout] err == nil ==> cfg.IPFSRequestTimeout == ite(jcfg.IPFSRequestTimeout != "", parseDur(jcfg.IPFSRequestTimeout), old(cfg.IPFSRequestTimeout))
+//@   ensures [pin-timeout] err == nil ==> cfg.PinTimeout == ite(jcfg.PinTimeout != "", parseDur(jcfg.PinTimeout), old(cfg.PinTimeout))
+//@   ensures [unpin-timeout] err == nil ==> cfg.UnpinTimeout == ite(jcfg.UnpinTimeout != "", parseDur(jcfg.UnpinTimeout), old(cfg.UnpinTimeout))
+//@   ensures [repogc-timeout] err == nil ==> cfg.RepoGCTimeout == ite(jcfg.RepoGCTimeout != "", parseDur(jcfg.RepoGCTimeout), old(cfg.RepoGCTimeout))
+//@   ensures [unparsable-duration-is-refused] (jcfg.PinTimeout != "" && parseDurErr(jcfg.PinTimeout) != nil) || (jcfg.UnpinTimeout != "" && parseDurErr(jcfg.UnpinTimeout) != nil) || (jcfg.RepoGCTimeout != "" && parseDurErr(jcfg.RepoGCTimeout) != nil) || (jcfg.IPFSRequestTimeout != "" && parseDurErr(jcfg.IPFSRequestTimeout) != nil) || (jcfg.ConnectSwarmsDelay != "" && parseDurErr(jcfg.ConnectSwarmsDelay) != nil) ==> err != nil
+//@   modifies *
+
+// ---- C15: loading a section = the defaults, then the section applied on top of them (a setting the section does
+// not carry gets its default, not whatever the object held before) ----
+//@ ghost var defaultsN int
+//@ func (cfg *Config) Default
+//@   opts trusted
+//@   counts defaultsN when true
+//@   modifies heap(Config)
+//@ func (cfg *Config) LoadJSON
+//@   property C15
+//@   requires cfg != nil
+//@   at_call Config.applyJSONConfig assert [defaults-first] defaultsN == old(defaultsN) + 1
+//@   modifies *
